@@ -920,6 +920,25 @@ def gen_rejected_statement(rng, tabs):
     ][r]
 
 
+SUBQ_ALIASES = ['d', 'n', 'acc', 'x', 'y', 'k']
+SUBQ_COLS = [('date', 'number'), ('account', 'number'), ('year', 'account'), ('number',), ('account', 'date', 'number')]
+
+
+def gen_subquery_statement(rng):
+    """a FROM-subquery statement whose inner output names are drawn from a small pool, read through `*`, by name, or
+    through a name only ANOTHER subquery of the history defines: whatever one statement's subquery table registers must
+    not be visible to the next (column namespaces are per statement)"""
+    cols = rng.choice(SUBQ_COLS)
+    names = rng.sample(SUBQ_ALIASES, len(cols))
+    inner = 'SELECT ' + ', '.join(f'{c} AS {a}' if rng.random() < 0.7 else c for c, a in zip(cols, names)) + ' WHERE number > 0'
+    r = rng.random()
+    if r < 0.5:
+        return f'SELECT * FROM ({inner})'
+    if r < 0.75:
+        return f'SELECT * FROM (SELECT * FROM ({inner}))'
+    return f'SELECT {rng.choice(SUBQ_ALIASES)} FROM ({inner})'          # often a name this subquery does not define
+
+
 def gen_rejected_history(rng, tabs):
     """2-7 steps (how, text): how = 'execute' (Connection.execute), 'cursor' (one cursor object shared by all such steps),
     'shell' (Connection.compile + execute_query / execute_print, the route of the interactive shell)"""
@@ -927,8 +946,10 @@ def gen_rejected_history(rng, tabs):
     for _ in range(rng.randint(2, 6)):
         how = rng.choice(['execute', 'execute', 'cursor', 'cursor', 'shell'])
         r = rng.random()
-        if r < 0.45:
+        if r < 0.4:
             steps.append((how, gen_rejected_statement(rng, tabs)))
+        elif r < 0.55:
+            steps.append((how, gen_subquery_statement(rng)))
         elif r < 0.9:
             steps.append((how, rng.choice(DEFAULT_TABLE_STATEMENTS)))
         else:
